@@ -75,6 +75,7 @@ RECURSIVE = [
     ('Ch', 'M DEFINITIONS AUTOMATIC TAGS ::= BEGIN Ch ::= CHOICE { leaf BOOLEAN, pair SEQUENCE { l Ch, r Ch }, ..., more SEQUENCE (SIZE(0..4)) OF Ch } END'),
     ('Grp', 'M DEFINITIONS AUTOMATIC TAGS ::= BEGIN Grp ::= SEQUENCE { a BOOLEAN, ..., [[ b Grp OPTIONAL, c INTEGER (0..7) OPTIONAL ]], d SEQUENCE OF Grp OPTIONAL } END'),
     ('Lst', 'M DEFINITIONS AUTOMATIC TAGS ::= BEGIN Lst ::= SEQUENCE OF Item Item ::= CHOICE { n INTEGER (0..65535), sub Lst, ..., s OCTET STRING } END'),
+    ('Doc', 'M DEFINITIONS AUTOMATIC TAGS ::= BEGIN Doc ::= SEQUENCE { title UTF8String, code IA5String (SIZE(0..8)) OPTIONAL, parts SEQUENCE OF Doc } END'),
 ]
 
 
@@ -107,6 +108,12 @@ def rec_value(name, rng, depth):
                 v['c'] = rng.randrange(8)
             if rng.random() < 0.3:
                 v['d'] = [rec_value(name, rng, depth - 2) for _ in range(rng.randint(0, 2))]
+        return v
+    if name == 'Doc':
+        v = {'title': rng.choice(['', 'a', 'caf\u00e9', '\u6f22\u5b57', 'x' * rng.randint(0, 20)]),
+             'parts': [rec_value(name, rng, depth - 1) for _ in range(rng.choice([0, 1, 1, 2]) if depth > 0 else 0)]}
+        if rng.random() < 0.5:
+            v['code'] = rng.choice(['', 'A1', 'zz9'])
         return v
     if name == 'Lst':
         out = []
@@ -174,13 +181,19 @@ def work_rec(job):
             if st != 'ok':
                 part.count('recursive.compile.' + st)
                 continue
+            sent = None
             for v in vals:
                 r = impl.encode(spec, name, v)
                 if r[0] != 'ok':
                     continue
                 data = r[1]
+                if sent is None:
+                    sent = (data, impl.decode(spec, name, data))
                 node = None
                 alts = mutations(rng, data, node) + structural_mutations(rng, data)
+                # single-octet corruptions at every position of short messages (string contents, lengths, tags)
+                if sent[0] is data:
+                    alts += [('octet-corruption', data[:i] + bytes([b]) + data[i + 1:]) for i in range(min(len(data), 24)) for b in (0xff, 0x80)]
                 for kind, alt in alts:
                     part.case((text, codec, alt))
                     try:
@@ -193,6 +206,13 @@ def work_rec(job):
                         part.violation('%s: decoding %d octets of malformed input %s' % (codec, len(alt), 'did not finish within %.0f s of CPU time' % TIME_LIMIT if d[1] == 'Timeout' else 'exhausted memory (%s)' % d[1]),
                                        {'codec': codec, 'module': text, 'type': name, 'input': alt.hex() if codec not in ('jer', 'xer') else alt.decode('utf-8', 'replace'), 'mutation': kind})
                         continue
+                    # sentinel: the compiled specification is in the same state as before (a valid encoding still decodes the same)
+                    s2 = impl.decode(spec, name, sent[0])
+                    if repr(s2) != repr(sent[1]):
+                        part.violation('%s: after malformed inputs a valid encoding of a recursive type decodes differently (state left in the compiled specification)' % codec,
+                                       {'codec': codec, 'module': text, 'type': name, 'last_malformed_input': alt.hex() if codec not in ('jer', 'xer') else alt.decode('utf-8', 'replace'),
+                                        'sentinel': sent[0].hex() if codec not in ('jer', 'xer') else repr(sent[0])[:200], 'before': repr(sent[1])[:300], 'after': repr(s2)[:300]})
+                        sent = (sent[0], s2)
                     if d[0] == 'ok':
                         n = count_scalars(d[1])
                         if n > 8 * len(alt) + 16:
